@@ -50,6 +50,13 @@ Stamp(line, c) == line @@ [tw |-> c.w, tm |-> c.m]
 Tick(c) == [w |-> c.w + 1, m |-> c.m + 1]
 TickN(c, n) == [w |-> c.w + n, m |-> c.m + n]
 
+\* wall-clock difference now - t as a duration record (t may carry microsecond-truncated nanoseconds)
+WallSince(c, t) == LET nowNs == 123456789
+                       borrow == IF nowNs < t.ns THEN 1 ELSE 0 IN
+                   [s |-> c.w - t.s - borrow, ns |-> IF nowNs < t.ns THEN nowNs + 1000000000 - t.ns ELSE nowNs - t.ns]
+WallNotBefore(c, t) == c.w > t.s \/ (c.w = t.s /\ 123456789 >= t.ns)
+Secs(n) == [s |-> n, ns |-> 0]
+
 RECURSIVE FoldGhost(_, _)
 FoldGhost(gh, lines) == IF lines = <<>> THEN gh ELSE FoldGhost(GhostStep(gh, Head(lines)), Tail(lines))
 
@@ -133,7 +140,8 @@ NewPoll(a, old) == IF HeaderRead(a) THEN XraOf(a.xra).v ELSE old
 NoAns == [cls |-> "none"]
 CkInit == [params |-> NoParams, sid |-> 0, attempt |-> 1, ucAns |-> NoAns, ucRes |-> "none", doc |-> [apps |-> <<>>, daystart |-> None],
            plan |-> "none", decision |-> "none", results |-> <<>>, apps |-> <<>>, outcome |-> "none", needed |-> FALSE,
-           nev |-> 0, optSrc |-> "scheduledtask", reqId |-> 0, finish |-> [w |-> 0, m |-> 0]]
+           nev |-> 0, optSrc |-> "scheduledtask", reqId |-> 0, finish |-> [w |-> 0, m |-> 0], reqStart |-> 0,
+           startW |-> 0, firstSeen |-> [s |-> 0, ns |-> 0]]
 Init ==
   /\ st = [pc |-> "B0", clk |-> [w |-> 0, m |-> 0],
            ctx |-> [poll |-> None, fails |-> 0, lut |-> EmptyLut, lct |-> EmptyLut, next |-> None],
@@ -331,7 +339,18 @@ CheckingEv(src, c) == Stamp([k |-> "ev", e |-> "state", s |-> "Checking", src |-
 \* :765-776 CheckingForUpdates, report_check_interval (lct := now), session id
 P1_Checking ==
   /\ st.pc = "P1"
-  /\ Emit(<<CheckingEv(st.ck.params.src, st.clk)>> \o st.respOwed)
+  /\ LET lct == st.ctx.lct
+         interval ==
+           IF IsSome(lct.w) /\ ~IsSome(lct.m)
+             THEN (IF WallNotBefore(st.clk, lct.w[1])
+                     THEN <<Stamp([k |-> "met", m |-> "interval", d |-> WallSince(st.clk, lct.w[1]), clock |-> "Wall", src |-> st.ck.params.src], st.clk)>>
+                     ELSE <<>>)
+           ELSE IF IsSome(lct.m)
+             THEN (IF st.clk.m >= lct.m[1].s
+                     THEN <<Stamp([k |-> "met", m |-> "interval", d |-> Secs(st.clk.m - lct.m[1].s), clock |-> "Monotonic", src |-> st.ck.params.src], st.clk)>>
+                     ELSE <<>>)
+           ELSE <<>>
+     IN Emit(<<CheckingEv(st.ck.params.src, st.clk)>> \o st.respOwed \o interval)
   /\ st' = [st EXCEPT !.pc = "P4a", !.ctx.lct = Now(st.clk), !.ids.sid = @ + 1, !.ck.sid = st.ids.sid + 1,
                       !.ck.apps = st.apps, !.ck.attempt = 1, !.nChecks = @ + 1, !.respOwed = <<>>]
   /\ UNCHANGED script
@@ -339,7 +358,7 @@ P1_Checking ==
 \* :785 a fresh request id per attempt, then the shared request step
 P4a_Build ==
   /\ st.pc = "P4a"
-  /\ st' = [st EXCEPT !.pc = "O2",
+  /\ st' = [st EXCEPT !.pc = "O2", !.ck.reqStart = st.clk.m,
                       !.rq = [kind |-> "uc", apps |-> UcPayload(st.ck.apps, st.ck.params), ret |-> "P4b", res |-> "none", ans |-> NoAns]]
   /\ UNCHANGED <<obs, g, script>>
 
@@ -382,7 +401,7 @@ P4b_Classify(draw) ==
   /\ st.pc = "P4b"
   /\ LET res == st.rq.res
          okx == res = "ok"
-         met == Stamp([k |-> "met", m |-> "resp_time", ok |-> okx], st.clk) IN
+         met == Stamp([k |-> "met", m |-> "resp_time", ok |-> okx, d |-> Secs(st.clk.m - st.ck.reqStart)], st.clk) IN
      IF Exits(res)
        THEN /\ Emit(<<met>> \o (IF okx THEN <<>> ELSE <<StateEv("Error", st.clk)>>)
                     \o <<Stamp([k |-> "met", m |-> "rpc", count |-> st.ck.attempt, ok |-> okx], st.clk)>>)
@@ -507,7 +526,10 @@ P12_FirstSeen ==
                            [k |-> "st.set", key |-> "update_first_seen_time", v |-> TruncWall(WallOf(st.clk))]>>
                          \o Commit, st.store, st.clk, <<>>) IN
      /\ Emit(lost \o r.lines)
-     /\ st' = [st EXCEPT !.pc = "P13", !.store = r.store, !.clk = r.clk]
+     /\ st' = [st EXCEPT !.pc = "P13", !.store = r.store, !.clk = r.clk, !.ck.startW = st.clk.w,
+                         !.ck.firstSeen = IF same /\ Has(st.store.pend, "update_first_seen_time")
+                                            THEN st.store.pend["update_first_seen_time"]
+                                            ELSE [s |-> st.clk.w, ns |-> 123456789]]
   /\ UNCHANGED script
 
 \* :1044-1085 join(perform_install, yield_progress)
@@ -548,8 +570,10 @@ NEvents(payload) == LET RECURSIVE Sum(_)
                     IN Sum(payload)
 P15_AppEvents ==
   /\ st.pc = "P15"
+  /\ Emit(<<Stamp([k |-> "met", m |-> IF \E i \in 1..Len(st.ck.results) : st.ck.results[i] = "f" THEN "fail_duration" ELSE "ok_duration",
+                   d |-> Secs(st.ck.finish.w - st.ck.startW)], st.clk)>>)
   /\ st' = StartReport(AddEvents(<<>>, Offered(st.ck.doc), st.ck.results, st.ck.apps, 1), "P16")
-  /\ UNCHANGED <<obs, g, script>>
+  /\ UNCHANGED script
 
 \* :1141-1152 update-complete for the apps that installed
 InstalledApps(off, results, apps) ==
@@ -593,8 +617,14 @@ P18_Errors ==
                              THEN <<[k |-> "st.set", key |-> "target_version", v |-> IF tv = "None" THEN "UNKNOWN" ELSE tv]>>
                              ELSE <<>>)
                        \o Commit
-                r == StRun(ops, st.store, st.clk, <<>>) IN
-            /\ Emit(r.lines)
+                r == StRun(ops, st.store, st.clk, <<>>)
+                fs == st.ck.firstSeen
+                finNs == 123456789
+                borrow == IF finNs < fs.ns THEN 1 ELSE 0
+                seen == <<Stamp([k |-> "met", m |-> "first_seen",
+                                 d |-> [s |-> st.ck.finish.w - fs.s - borrow,
+                                        ns |-> IF finNs < fs.ns THEN finNs + 1000000000 - fs.ns ELSE finNs - fs.ns]], st.clk)>> IN
+            /\ Emit(seen \o r.lines)
             /\ st' = [st EXCEPT !.pc = "P20", !.store = r.store, !.clk = r.clk, !.ck.outcome = "installed"]
   /\ UNCHANGED script
 P20_Needed(a) ==
